@@ -117,6 +117,25 @@ functions of `lean/CnvVerif/Model/PyPrims.lean`) are stated at the top of that f
   nothing before it: Python's short-circuit evaluation);
 * `argument_of(fn, callee, param)` (bottom of this file) reads "the value `fn` passes to `callee` as `param`": the
   function is cut at its final `return callee(...)` and returns that argument instead (positional or keyword).
+
+Added for the PIECES of larger functions (`emit_pieces`, used by extractors/exprs_interval.py; none of the rules below
+is reachable from `emit`, whose output is unchanged):
+* one-argument `round(e)` is Python 3's round-half-to-even, spelled out with `.floor` (the float division feeding it is
+  read as exact rational division, as everywhere else);
+* `a or b` in arithmetic position is `a` when `a ≠ 0`, else `b` (truthiness of a number);
+* `name.attr` of a plain local (`row.start`, `keeper.end`) is the parameter `name_attr`;
+* a piece is ONE expression or condition picked out of a function by the extractor (the value bound to a named local,
+  the test of an `if`), with the function's single-assignment locals read through (`translate.expand`), so that the
+  piece only mentions parameters, loop variables and attributes of loop variables; the control flow AROUND the pieces
+  (the loops, which branch yields what) is not read -- it stays with the correspondence run;
+* `atoms`: sub-expressions that the extractor names verbatim (`table.end.cummax().values[:-1]` ↦ `end_cummax_prev`,
+  `rows_to_exclude.start.iat[0]` ↦ `first_excluded_start`) are read ELEMENTWISE as one number per row / per call; the
+  mapping is listed in the extractor and is part of the trusted base; a sub-expression that is neither an atom nor in
+  the subset leaves the piece untranslated;
+* `x.clip(lower=a, upper=b)` is `min b (max a x)` (either bound may be missing); `**name` of a dict literal bound once
+  in the function, with optional `name[key] = value` under an `if flag:`, is resolved by the `flags` the extractor
+  passes (which optional argument is supplied);
+* a piece whose `typ` is `Int` contains only integer literals, `+ - *`, comparisons, `min`/`max`: it is emitted over `Int`.
 """
 from __future__ import annotations
 
@@ -147,7 +166,11 @@ def _num_literal(e):
 
 
 class Fn:
-    def __init__(self, fn: ast.FunctionDef, given=(), absent=(), default_on_raise=None, rename=None, callees=None):
+    def __init__(self, fn: ast.FunctionDef, given=(), absent=(), default_on_raise=None, rename=None, callees=None,
+                 pieces=False, atoms=None, num="Rat"):
+        self.pieces = pieces          # the additional reading rules for pieces of larger functions
+        self.atoms = atoms or {}      # verbatim source text -> parameter name (elementwise reading)
+        self.num = num                # "Rat" | "Int"
         self.callees = callees or {}
         self.fn = fn
         self.given = set(given)      # optional parameters known to be supplied (not None)
@@ -184,7 +207,88 @@ class Fn:
         return sorted(names, key=key)
 
     # -- expressions -----------------------------------------------------------------------------
+    def lit(self, x):
+        if self.num == "Int":
+            if isinstance(x, float) or x != int(x):
+                raise Untranslatable(f"non-integer literal {x!r} in an Int piece")
+            return f"({int(x)} : Int)" if x >= 0 else f"(({int(x)}) : Int)"
+        return _rat(x)
+
+    def piece_expr(self, e, env):
+        """the additional forms accepted inside pieces; None when `e` is not one of them"""
+        text = ast.unparse(e)
+        if text in self.atoms:
+            return self.param(self.atoms[text])
+        if isinstance(e, ast.Constant) and isinstance(e.value, (int, float)) and not isinstance(e.value, bool):
+            return self.lit(e.value)
+        if isinstance(e, ast.Attribute) and isinstance(e.value, ast.Name) and e.value.id not in env:
+            return self.param(e.value.id + "_" + e.attr)
+        if isinstance(e, ast.BoolOp) and isinstance(e.op, ast.Or) and len(e.values) == 2:
+            a, b = self.expr(e.values[0], env), self.expr(e.values[1], env)
+            return f"(if {a} ≠ 0 then {a} else {b})"
+        if isinstance(e, ast.Call):
+            f = ast.unparse(e.func)
+            if f == "round" and len(e.args) == 1 and not e.keywords and self.num == "Rat":
+                x = self.expr(e.args[0], env)
+                fl = f"((({x}).floor : Int) : Rat)"
+                return (f"(if {x} - {fl} < (1 : Rat) / 2 then {fl} else if {x} - {fl} > (1 : Rat) / 2 then {fl} + 1 "
+                        f"else if ({x}).floor % 2 = 0 then {fl} else {fl} + 1)")
+            if isinstance(e.func, ast.Attribute) and e.func.attr == "clip" and not e.args:
+                kw = {}
+                for k in e.keywords:
+                    if k.arg is None:
+                        kw.update(self.resolve_dict(k.value))
+                    else:
+                        kw[k.arg] = k.value
+                if set(kw) - {"lower", "upper"}:
+                    raise Untranslatable("clip with " + ", ".join(sorted(kw)))
+                x = self.expr(e.func.value, env)
+                if "lower" in kw:
+                    x = f"(max {self.expr(kw['lower'], env)} {x})"
+                if "upper" in kw:
+                    x = f"(min {self.expr(kw['upper'], env)} {x})"
+                return x
+        return None
+
+    def resolve_dict(self, node):
+        """`**name`: the dict literal bound to `name` once in the function, plus `name[key] = v` statements under
+        `if flag:` for the flags that are given"""
+        if not isinstance(node, ast.Name):
+            raise Untranslatable("** of " + ast.unparse(node))
+        lits = [n for n in ast.walk(self.fn) if isinstance(n, ast.Assign) and len(n.targets) == 1
+                and isinstance(n.targets[0], ast.Name) and n.targets[0].id == node.id]
+        if len(lits) != 1 or not isinstance(lits[0].value, ast.Dict):
+            raise Untranslatable(f"`{node.id}` is not one dict literal")
+        out = {}
+        for k, v in zip(lits[0].value.keys, lits[0].value.values):
+            if not (isinstance(k, ast.Constant) and isinstance(k.value, str)):
+                raise Untranslatable("dict key " + ast.unparse(k))
+            out[k.value] = v
+
+        def stores(stmts, active):
+            for st in stmts:
+                if isinstance(st, ast.If):
+                    if isinstance(st.test, ast.Name) and (st.test.id in self.given or st.test.id in self.absent):
+                        stores(st.body, active and st.test.id in self.given)
+                        stores(st.orelse, active and st.test.id in self.absent)
+                    elif any(isinstance(t, ast.Subscript) and isinstance(t.value, ast.Name) and t.value.id == node.id
+                             for n in ast.walk(st) for t in (n.targets if isinstance(n, ast.Assign) else [])):
+                        raise Untranslatable(f"`{node.id}[...] = ` under a condition that the flags do not resolve")
+                elif isinstance(st, ast.Assign) and len(st.targets) == 1 and isinstance(st.targets[0], ast.Subscript) \
+                        and isinstance(st.targets[0].value, ast.Name) and st.targets[0].value.id == node.id:
+                    key = st.targets[0].slice
+                    if not (isinstance(key, ast.Constant) and isinstance(key.value, str)):
+                        raise Untranslatable("dict key " + ast.unparse(key))
+                    if active:
+                        out[key.value] = st.value
+        stores(self.fn.body, True)
+        return out
+
     def expr(self, e, env):
+        if self.pieces:
+            r = self.piece_expr(e, env)
+            if r is not None:
+                return r
         if isinstance(e, ast.Constant):
             if isinstance(e.value, bool) or e.value is None:
                 raise Untranslatable(f"constant {e.value!r} in arithmetic position")
@@ -1696,3 +1800,44 @@ def inline_imported_params(tree, repo_params_consts):
                 return ast.copy_location(new, node)
             return node
     return ast.fix_missing_locations(T().visit(tree))
+
+
+def emit_pieces(repo, o, specs):
+    """one Lean definition per PIECE of a larger function (see the reading rules at the top).  A spec is a dict:
+    path, func (and cls), pick: fn_ast -> expression node, lean, kind ("expr" | "cond"), num ("Rat" | "Int"),
+    atoms {source text: parameter}, order [parameter names in the order of the Lean signature], given / absent (flags),
+    keep (locals NOT read through), comment.  A piece outside the subset leaves a comment instead of a definition."""
+    import os
+    from .translate import parse, find_func, expand
+    for sp in specs:
+        lean = sp["lean"]
+        try:
+            tree, _src = parse(os.path.join(repo, sp["path"]))
+            fn = find_func(tree, sp["func"], sp.get("cls"))
+            node = sp["pick"](fn)
+            if node is None:
+                raise Untranslatable("piece not found")
+            node = expand(node, fn, tree, keep=tuple(sp.get("keep", ())))
+            tr = Fn(fn, given=sp.get("given", ()), absent=sp.get("absent", ()), pieces=True, atoms=sp.get("atoms"),
+                    num=sp.get("num", "Rat"))
+            num = tr.num
+            if sp.get("kind") == "cond":
+                body, typ = f"decide {tr.cond(node, {})}", "Bool"
+            else:
+                body, typ = tr.expr(node, {}), num
+            if "MASK:" in body:
+                raise Untranslatable("a mask escaped into an arithmetic position")
+            if num == "Int":
+                if "/" in body or ".floor" in body or ".ceil" in body or ": Rat" in body:
+                    raise Untranslatable("division / rounding / rational literal in an Int piece")
+            order = list(sp.get("order", ()))
+            params = [p for p in order if p in tr.params] + sorted(p for p in tr.params if p not in order)
+            ps = f" ({' '.join(params)} : {num})" if params else ""
+            doc = f"/-- {sp['comment']} -/\n" if sp.get("comment") else ""
+            text = f"{doc}def {lean}{ps} : {typ} :=\n  {body}"
+        except (Untranslatable, KeyError, OSError, SyntaxError, IndexError, AttributeError) as e:
+            o.lines.append(f"-- NOT TRANSLATED: {sp['path']}:{sp['func']}:{lean}: {type(e).__name__}: {str(e)[:200]}".replace("\n", " "))
+            o.info[lean] = {"error": str(e)[:200]}
+            continue
+        o.lines.append(text)
+        o.info[lean] = {"params": params}
